@@ -12,22 +12,25 @@ ROWTHMS = ['rows_from_build_unit_all_string_keys', 'rows_from_build_unit_bool_ke
            'rows_get_base_podman_command_inline_lookup_and_add_all_strings', 'rows_handle_health_key_arg_map',
            'rows_handle_publish_ports_inline_lookup_and_add_all_strings']
 THEOREMS = (['Cv.C02_frame_string', 'Cv.C02_frame_all', 'Cv.C02_frame_bool', 'Cv.C02_row_string', 'Cv.C02_row_all', 'Cv.C02_row_bool',
-             'Cv.C02_add_key_string', 'Cv.C02_add_key_all', 'Cv.C02_add_key_bool', 'Cv.C02_other_key_string', 'Cv.C02_image_shape'] +
+             'Cv.C02_add_key_string', 'Cv.C02_add_key_all', 'Cv.C02_add_key_bool', 'Cv.C02_other_key_string', 'Cv.C02_image_shape',
+             'Cv.C02_network_shape', 'Cv.C02_pod_shape', 'Cv.C02_kube_shape', 'Cv.C02_build_shape', 'Cv.C02_container_shape', 'Cv.C02_volume_shape',
+             'Cv.HasExec.splits', 'Cv.rowString_infix', 'Cv.C02_string_option_reaches_podman'] +
             ['Conform.' + t for t in ROWTHMS] + ['Conform.lookup_kinds'])
 ASSUMPTIONS = [
     'Spec.rows_* / Spec.lookupKinds (lean/QM/Spec/Keys.lean, spec/keys.json) are the frozen documented key -> option tables and lookup kinds, seeded from the pinned tree',
-    'the table-driven rows (string / all-strings / boolean keys, health keys, PublishPort, ContainersConfModule) are proved generically; the whole-command shape is proved for .image; for the other six converters and for the "special" keys (Volume, Mount, Network, User/Group, UserNS…, Notify, AutoUpdate, …) the option groups and the three position claims are checked on real conversions by the delta oracle, not yet proved',
+    'the table-driven rows (string / all-strings / boolean keys, health keys, PublishPort, ContainersConfModule) are proved generically; the whole-command shape is proved for all seven converter models (C02_<type>_shape: the Exec line is the rendering of an explicit vector with the key tables as contiguous blocks in table order, PodmanArgs after the key-derived options, positional arguments last; results of handlers that depend on other units are existentially quantified); for the "special" keys (Volume, Mount, Network, User/Group, UserNS…, Notify, AutoUpdate, …) the exact option groups are checked on real conversions by the delta oracle',
     'Mount= values that need CSV quoting are outside the model (answered out-of-model by the model driver; still covered by the oracle)',
 ]
-LEVEL_TEXT = ('Proof (table rows, .image) + oracle (all keys): Lean theorems — every key → option table extracted from convert.rs equals the frozen '
+LEVEL_TEXT = ('Proof (table rows, command shapes of all converters) + oracle (all keys): Lean theorems — every key → option table extracted from convert.rs equals the frozen '
               'documented table (decide over the finite tables, on every run); a table row reads only the assignment history of its own key (frame), '
               'emits `flag value` with the exact unquoted text / once per item in order / the on-off form, and adding a key inserts exactly its row\'s '
-              'options at the row\'s position while every other row is unchanged (for all units, keys and values); for .image the complete command '
-              'shape (podman, modules, GlobalArgs, subcommand, key options, PodmanArgs, image last) is proved from the converter model. All other keys '
-              'and converters: on the real converter, the argument-vector delta between a base unit and the base unit plus the key is compared with '
+              'options at the row\'s position while every other row is unchanged (for all units, keys and values); for every converter model the '
+              'generated Exec line is proved to be the rendering of an explicit argument vector (podman, modules, GlobalArgs, subcommand, the key '
+              'tables as contiguous blocks in table order, name=value blocks, PodmanArgs after the key-derived options, positional arguments last), '
+              'which by C01 is exactly what systemd splits it into (C02_string_option_reaches_podman end to end). Special keys: on the real converter, the argument-vector delta between a base unit and the base unit plus the key is compared with '
               'the documented option group, for every documented key and a set of adversarial values.')
 LEVEL_NOTE = 'Trusted: Lean kernel; extractor; frozen tables; correspondence of the converter models; the Python table of documented "special" keys used by the delta oracle.'
-TECHNIQUE = 'Lean 4 proofs (emitter frame/add-key lemmas, table conformance, .image command shape) + correspondence + argument-delta oracle on the real converters'
+TECHNIQUE = 'Lean 4 proofs (emitter frame/add-key lemmas, table conformance, command shapes of all seven converters) + correspondence + argument-delta oracle on the real converters'
 
 SPEC = json.load(open(os.path.join(core.VERIF, 'spec', 'keys.json')))
 VALUES = ['x', 'a b', 'k=v', 'a:b', 'a,b', '%h/x', 'é', 'q"r', "it's", 'back\\slash', 'a=b=c', 'x y  z']
